@@ -6,4 +6,4 @@ NOT_APPLICABLE = {}
 HOOK_COMMITS = ['ccf9035', 'f508266', 'dd63c1f']
 
 # checks that are finished and registered in MANIFEST.json (others stay under not_applicable until ready)
-READY = ['C01', 'C03', 'C04', 'C05', 'C06', 'C07', 'C08', 'C09', 'C10', 'C11', 'C12', 'C13', 'C14', 'C15', 'C16', 'C17', 'C18', 'C19', 'C20']
+READY = ['C01', 'C02', 'C03', 'C04', 'C05', 'C06', 'C07', 'C08', 'C09', 'C10', 'C11', 'C12', 'C13', 'C14', 'C15', 'C16', 'C17', 'C18', 'C19', 'C20']
